@@ -171,7 +171,7 @@ func cmdC12(seed int64, tier, outDir string) {
 	sum := NewSummary("C12", seed, tier)
 	sum.Rule = "(1) the input streams of C04 (corpus, insertions at every position, random bytes, token soup, mutated programs, long inputs; the 30000-deep inputs are left to C04) x generators x {comments, comfort}: Generate called 200 times per input (50 for inputs over 1 KB, 3 over 4 KB) in a worker process, goroutines with parser2/iterator frames counted after a grace period (100 ms doubling to 2 s while the count falls); (2) pipelines: {parallel map, parallel accept, merge, parallel map feeding merge} x {first, top+size, present, indexWhere, single, ~, size, sum} plus error paths in mapper, predicate, less, source, and multiUse with early-stopping / failing / complete consumers, each evaluated N times. Non-trivial = an input whose parse stops with at least one token unsent (distinct by generator, configuration, unsent count class, error message class), or a pipeline whose consumer stops before the source ends (distinct by name)"
 	log.SetOutput(io.Discard)
-	cw := NewCaseWriter(outDir, "From P2 Require Import Base.Prelude Lex.Token Lex.Tok Run.C15Run Run.C04Run Run.C12Run.", "c12_case", "c12_id", "c12_im", "c12_is", 150)
+	cw := NewCaseWriter(outDir, "From P2 Require Import Base.Prelude Lex.Token Lex.Tok Run.C15Run Run.C04Run Run.C12Run.", "c12_case", "c12_id", "c12_im", "c12_is", 250)
 	base := c04CoqTables()
 	cw.prelude = base
 
